@@ -1,6 +1,8 @@
 package frost
 
 import (
+	"errors"
+
 	"github.com/taurusgroup/multi-party-sig/internal/round"
 	"github.com/taurusgroup/multi-party-sig/pkg/math/curve"
 	"github.com/taurusgroup/multi-party-sig/pkg/party"
@@ -59,6 +61,9 @@ func KeygenTaproot(selfID party.ID, participants []party.ID, threshold int) prot
 
 // Refresh
 func Refresh(config *Config, participants []party.ID) protocol.StartFunc {
+	if config == nil || config.PublicKey == nil || config.VerificationShares == nil {
+		return startError(errors.New("frost.Refresh: config is nil"))
+	}
 	return keygen.StartKeygenCommon(false, config.Curve(), participants, config.Threshold, config.ID, config.PrivateShare, config.PublicKey, config.VerificationShares.Points)
 }
 
@@ -68,6 +73,9 @@ func Refresh(config *Config, participants []party.ID) protocol.StartFunc {
 //
 // See: https://github.com/bitcoin/bips/blob/master/bip-0340.mediawiki#specification
 func RefreshTaproot(config *TaprootConfig, participants []party.ID) protocol.StartFunc {
+	if config == nil {
+		return startError(errors.New("frost.RefreshTaproot: config is nil"))
+	}
 	publicKey, err := curve.Secp256k1{}.LiftX(config.PublicKey)
 	if err != nil {
 		return func([]byte) (round.Session, error) {
@@ -101,6 +109,13 @@ func RefreshTaproot(config *TaprootConfig, participants []party.ID) protocol.Sta
 // Instead, each participant independently verifies and broadcasts items as necessary.
 //
 // Differences stemming from this change are commented throughout the protocol.
+// startError returns a StartFunc that refuses to start with the given error.
+func startError(err error) protocol.StartFunc {
+	return func([]byte) (round.Session, error) {
+		return nil, err
+	}
+}
+
 func Sign(config *Config, signers []party.ID, messageHash []byte) protocol.StartFunc {
 	return sign.StartSignCommon(false, config, signers, messageHash)
 }
@@ -111,6 +126,9 @@ func Sign(config *Config, signers []party.ID, messageHash []byte) protocol.Start
 //
 // See: https://github.com/bitcoin/bips/blob/master/bip-0340.mediawiki
 func SignTaproot(config *TaprootConfig, signers []party.ID, messageHash []byte) protocol.StartFunc {
+	if config == nil {
+		return startError(errors.New("frost.SignTaproot: config is nil"))
+	}
 	publicKey, err := curve.Secp256k1{}.LiftX(config.PublicKey)
 	if err != nil {
 		return func([]byte) (round.Session, error) {
